@@ -306,6 +306,7 @@ def mergeSum : Value → Value → Value
   | x, .null => x
   | .int a, .int b => .int (a + b)
   | .real a, .real b => .real (F64.add a b)
+  | .interval a, .interval b => .interval (a + b)
   | x, _ => x
 
 theorem intSumValue_append (a b : List Int) : intSumValue (a ++ b) = mergeSum (intSumValue a) (intSumValue b) := by
